@@ -90,8 +90,8 @@ def match_known(known, pid, unit, obl_name):
 def write_replay(pid, unit, obl, extra=None):
     d = os.path.join(REPLAY_DIR, pid)
     os.makedirs(d, exist_ok=True)
-    safe = re.sub(r"[^A-Za-z0-9_.-]+", "_", f"{unit}__{obl.name}")[:150]
-    path = os.path.join(d, safe + ".json")
+    safe = re.sub(r"[^A-Za-z0-9_.-]+", "_", f"{unit}__{obl.name}")[:120]
+    path = os.path.join(d, safe + "." + sha256_text(unit + "|" + obl.name)[:8] + ".json")
     rec = {"property": pid, "unit": unit, "failed_obligation": obl.name,
            "backend": obl.backend, "verifier_output": obl.detail,
            "counterexample": obl.model}
